@@ -10,6 +10,7 @@
   `Response.zip` is the ordered member list); the theorems are about routing and selection.
 -/
 import GIV.Lemmas.ProxySpec
+import GIV.Lemmas.ProxyGo
 namespace GIV.C20
 open GIV GIV.Proxy
 
@@ -530,5 +531,24 @@ example : runSeq exExt exMl exStore []
     = [.notFound, .zip [⟨lit "example.com/Foo@v1.0.0/go.mod", lit "m"⟩, ⟨lit "example.com/Foo@v1.0.0/sub/.keep", []⟩],
        .zip [⟨lit "example.com/Foo@v1.0.0/go.mod", lit "m"⟩, ⟨lit "example.com/Foo@v1.0.0/sub/.keep", []⟩]] := by
   decide +kernel
+
+/-! ### `allHex` of the Go source itself
+
+`GIV.Go.Proxy.allHex` is the Lean translation of goproxytest/allhex.go, regenerated from /repo's working tree on every
+check run (harness/internal/go2lean → GIV/Gen/ProxyGo.lean).  The handler uses it to decide whether a requested
+version is a commit-hash prefix that has to be resolved to a stored pseudo-version. -/
+
+/-- The translated `allHex` never panics (`rev[i]` for `i` in `range len(rev)`) and is the model's `allHex`:
+true exactly for strings of lower-case hexadecimal digits. -/
+theorem go_allHex_agrees (rev : Bytes) :
+    GIV.Go.Proxy.allHex rev = some (GIV.Proxy.allHex rev) ∧
+    (GIV.Proxy.allHex rev = true ↔ ∀ c ∈ rev, (48 ≤ c ∧ c ≤ 57) ∨ (97 ≤ c ∧ c ≤ 102)) := by
+  refine ⟨GIV.Go.Proxy.go_allHex_eq rev, ?_⟩
+  have hr : Gen.Proxy.hexRanges = [(48, 57), (97, 102)] := rfl
+  simp [GIV.Proxy.allHex, hr, List.all_eq_true]
+
+-- the generated definition, evaluated by the kernel: "0123abcdef" and "0123abcdeg"
+example : GIV.Go.Proxy.allHex [48, 49, 50, 51, 97, 98, 99, 100, 101, 102] = some true := by decide +kernel
+example : GIV.Go.Proxy.allHex [48, 49, 50, 51, 97, 98, 99, 100, 101, 103] = some false := by decide +kernel
 
 end GIV.C20
